@@ -135,6 +135,7 @@ def run_shard(spec, emit):
     allowed, ren, implicit = docs_tables()
     if spec["shard"] == 0:
         emit({"v": "info", "k": "documented_allowed_pairs", "val": sorted(f"{a}->{b}" for a, b in allowed)})
+        consistency_part(emit)
     k = 0
     for src, tgt in itertools.product(T, T):
         k += 1
@@ -218,6 +219,46 @@ def run_shard(spec, emit):
                         emit({"v": "viol", "b": b, "mech": f"wrong-converted-value/{src}->{tgt}/{level}", "what": f"{script} on {v!r}: returned {got!r}, documented {e!r}", "case": case})
                         continue
                 emit({"v": "held", "b": b, "sample": {"script": script, "value": v, "result": got}})
+
+
+def consistency_part(emit):
+    """Number -> Integer of fractional values is not documented (truncate or round?) but every way of writing the same
+    conversion must give the same integer: component vs dataset level, stored operand vs inline expression."""
+    from vf import eng
+    ints = [3, 5, 7, -3, -5, 1, 4]
+    one_i = [("Id_1", "Integer", "Identifier", False), ("Me_1", "Integer", "Measure", True)]
+    one_n = [("Id_1", "Integer", "Identifier", False), ("Me_1", "Number", "Measure", True)]
+    st = eng.structures(eng.mkds("DS_I", one_i), eng.mkds("DS_N", one_n))
+    dps = lambda: {"DS_I": eng.mkdf(["Id_1", "Me_1"], [(i + 1, v) for i, v in enumerate(ints)]),  # noqa: E731
+                   "DS_N": eng.mkdf(["Id_1", "Me_1"], [(i + 1, v / 2) for i, v in enumerate(ints)])}
+    forms = {
+        "component-stored": "DS_r <- DS_N[calc Me_2 := cast(Me_1, integer)][keep Me_2];",
+        "dataset-stored": "DS_r <- cast(DS_N, integer);",
+        "dataset-inline-division": "DS_r <- cast(DS_I / 2, integer);",
+        "dataset-inline-multiplication": "DS_r <- cast(DS_I * 0.5, integer);",
+        "dataset-via-intermediate": "DS_a := DS_I / 2; DS_r <- cast(DS_a, integer);",
+        "component-inline": "DS_r <- DS_I[calc Me_2 := cast(Me_1 / 2, integer)][keep Me_2];",
+    }
+    res = {}
+    for name, script in forms.items():
+        s, r = eng.call(eng.run, script, st, dps())
+        if s == "exc":
+            emit({"v": "inc", "why": f"consistency form {name} raised {type(r).__name__}"})
+            continue
+        ds = r["DS_r"]
+        m = [n for n, c in ds.components.items() if c.role.value == "Measure"][0]
+        res[name] = {int(a): eng.norm(b) for a, b in zip(ds.data["Id_1"].tolist(), ds.data[m].tolist())}
+    ref_name = "component-stored"
+    for name, vals in res.items():
+        if name == ref_name or ref_name not in res:
+            continue
+        b = f"Number->Integer/consistency/{name}"
+        diff = {k: (vals.get(k), res[ref_name].get(k)) for k in res[ref_name] if vals.get(k) != res[ref_name].get(k)}
+        if diff:
+            emit({"v": "viol", "b": b, "mech": f"number-to-integer-inconsistent/{name}", "what": f"{forms[name]} gives {vals} but {forms[ref_name]} gives {res[ref_name]} for the same values {[v / 2 for v in ints]}",
+                  "case": {"consistency": name}})
+        else:
+            emit({"v": "held", "b": b, "sample": {"form": name, "script": forms[name], "values": vals}})
 
 
 def replay(case, emit):
